@@ -181,6 +181,10 @@ class PointAxis:
         for s in walk_stmts(fi.node.body):
             sites(s)
             assign(s)
+            # a property that returns a per-point value is a per-point attribute for its readers (self.lifetime_n_cycles)
+            if isinstance(s, ast.Return) and s.value is not None and fi.is_property() and ci is not None and \
+                    self.k(s.value, env, ci) == "P":
+                self.attr[(ci.key, fi.name)] = "P"
         return env
 
 
